@@ -764,22 +764,9 @@ func (self PathNode) marshal(p *binary.BinaryProtocol, rootLayer bool, opts *Opt
 					return wrapError(meta.ErrWrite, "PathNode.marshal: append string failed", err)
 				}
 			} else if kt.IsInt() {
-				wt := proto.Kind2Wire[kt.TypeToKind()]
-				// Mapkey field number is 1
-				if err = p.AppendTag(1, wt); err != nil {
-					return wrapError(meta.ErrWrite, "PathNode.marshal: append tag failed", err)
-				}
-
-				if wt == proto.VarintType {
-					err = p.WriteInt64(int64(v.Path.int()))
-				} else if wt == proto.Fixed32Type {
-					err = p.WriteSfixed32(int32(v.Path.int()))
-				} else if wt == proto.Fixed64Type {
-					err = p.WriteSfixed64(int64(v.Path.int()))
-				}
-				if err != nil {
-					return wrapError(meta.ErrWrite, "PathNode.marshal: append int failed", err)
-				}
+				// key tag (field number 1) + key, encoded by the key's KIND: the wire type alone does not
+				// say whether a varint key is plain, unsigned or zig-zag (sint32/sint64)
+				p.Buf = append(p.Buf, NewPathIntKey(v.Path.int()).ToRaw(kt)...)
 			} else {
 				return wrapError(meta.ErrUnsupportedType, "PathNode.marshal: unsupported map key type", nil)
 			}
